@@ -422,6 +422,8 @@ func runC01(tier string, seed uint64) {
 				s.heldRead(b, hk, rng.Bytes(sz/2+3))
 				s.heldRead(b, hk, rng.Bytes(sz+5))
 			}
+			// an acknowledged object stays served when keys one and two levels below it are uploaded
+			c02Nesting(s, b)
 			// later operations on other keys leave the answer unchanged
 			s.Put(b, "other", []byte("x"), nil)
 			s.Delete(b, "other")
